@@ -38,6 +38,13 @@ def has_sym(*args):
         elif isinstance(a, (list, tuple)):
             if has_sym(*a):
                 return True
+        elif hasattr(a, 'dtypes') or (hasattr(a, 'dtype') and hasattr(a, 'index') and hasattr(a, 'values')):
+            # pandas DataFrame / Series holding objects
+            try:
+                if _np.asarray(a).dtype == object:
+                    return True
+            except Exception:
+                pass
     return False
 
 
@@ -45,6 +52,8 @@ def S(a):
     """Object-dtype SymArray view/copy of anything array-like."""
     if isinstance(a, SymArray):
         return a
+    if not isinstance(a, (_np.ndarray, list, tuple, Sym)) and hasattr(a, '__array__'):
+        a = _np.asarray(a)
     if isinstance(a, _np.ndarray) and a.dtype == object:
         return a.view(SymArray)
     if isinstance(a, _np.ndarray):
